@@ -66,6 +66,8 @@ type saveStep struct {
 }
 
 type workload struct {
+	plainGoast bool // decorated with goast.New(): package names are GUESSED from the import paths (every import of the workload is guessable)
+	hasDot     bool // a file has a dot-import: goast refuses to decorate it, so there is nothing to save
 	files      []fileSpec
 	order      []int // Syntax order: positions -> parse index
 	resKind    int
@@ -97,6 +99,8 @@ func draw(run *core.Run) *workload {
 	ndirs := 1 + t.Draw(3)
 	used := map[string]bool{}
 	pkgName := []string{"pkg", "main", "lib"}[t.Draw(3)]
+	w.plainGoast = t.Bool(1, 4)
+	allowDot := t.Bool(1, 24)
 	for i := 0; i < nfiles; i++ {
 		var p string
 		for tries := 0; ; tries++ {
@@ -111,8 +115,11 @@ func draw(run *core.Run) *workload {
 			}
 		}
 		used[p] = true
-		opt := gen.Options{MaxImports: 5, MaxDecls: 4, AllowCgo: true, Conflicts: t.Bool(1, 3), UseAll: true, NoVendor: true, PkgName: pkgName}
+		opt := gen.Options{MaxImports: 5, MaxDecls: 4, AllowCgo: true, Conflicts: t.Bool(1, 3), UseAll: true, NoVendor: true, PkgName: pkgName, NoGuessTrap: w.plainGoast, AllowDot: allowDot}
 		sp := gen.Source(t, opt)
+		if sp.Dot {
+			w.hasDot = true
+		}
 		src := sp.Src
 		if t.Bool(1, 5) {
 			// generated code (goyacc, protoc, ...) carries //line directives: positions then report
@@ -214,6 +221,9 @@ type pkgState struct {
 func build(w *workload, pathOf func(i int) string, sharedResolver ...*goast.DecoratorResolver) (*pkgState, error) {
 	fset := token.NewFileSet()
 	res := goast.WithResolver(guess.WithMap(truth()))
+	if w.plainGoast {
+		res = goast.New() // the default: names guessed from the paths
+	}
 	if len(sharedResolver) > 0 && sharedResolver[0] != nil {
 		res = sharedResolver[0] // one identifier resolver used for several packages
 	}
@@ -322,6 +332,9 @@ func Run(run *core.Run) {
 	var shared *goast.DecoratorResolver
 	if run.T.Bool(1, 3) {
 		shared = goast.WithResolver(guess.WithMap(truth()))
+		if w.plainGoast {
+			shared = goast.New()
+		}
 		od := decorator.NewDecoratorWithImports(token.NewFileSet(), "sim.local/other", shared)
 		n := 1 + run.T.Draw(2)
 		for i := 0; i < n; i++ {
@@ -333,6 +346,13 @@ func Run(run *core.Run) {
 		run.Count("resolver-shared-with-another-package")
 	}
 	subj, err := build(w, simPath, shared)
+	if err != nil && w.hasDot && strings.Contains(err.Error(), "dot-import") {
+		// goast cannot tell which identifiers a dot-import provides and refuses the file: a
+		// package that cannot be decorated cannot be saved. (Should a change make it decorate such
+		// files, saving them unedited owes identical bytes like any other file.)
+		run.Count("dot-import-refused-by-goast")
+		return
+	}
 	if err != nil {
 		panic("harness: generated package does not parse: " + err.Error())
 	}
@@ -759,6 +779,10 @@ func runReal(run *core.Run, w *workload) {
 		return out
 	}
 	subj, err := build(w, realPath)
+	if err != nil && w.hasDot && strings.Contains(err.Error(), "dot-import") {
+		run.Count("dot-import-refused-by-goast")
+		return
+	}
 	if err != nil {
 		panic("harness: " + err.Error())
 	}
